@@ -117,7 +117,7 @@ def jwe_json_eps(j, key, allow, sender=None):
 
 JSON_VALUES = list(JSON_TYPE_VALUES.values()) + ["é", "\u0000", "A" * 5000, -0.0, 1e308, [[[[[]]]]], {"a": {"b": {"c": []}}}, [None], [{}], 2**64, -2**63, "=", "AA==", "A", "+/",
                                                    float("inf"), float("-inf"), float("nan"), 2048.0, -1.0, 2**1024, 10**400]   # 1e999 / Infinity / NaN as Python's json reads them
-P2C_VALUES = [-1, 0, 1, 2, 99, 1000, 100000, 2**31 - 1, 2**31, 2**32, 2**63 - 1, 2**63, 2**64, 10**30, -2**31, 1.5, True, "1000", None, [1], {},
+P2C_VALUES = [-1, 0, 1, 2, 99, 1000, 100000, 310000, 600001, 1000001, 2**31 - 1, 2**31, 2**32, 2**63 - 1, 2**63, 2**64, 10**30, -2**31, 1.5, True, "1000", None, [1], {},
               1000.0, 4096.0, float("inf"), float("-inf"), float("nan"), 1e308, -1e308, 2**1024, 0.0, -0.0]
 P2C_SLOW = {2**31 - 1}   # excluded: slow, not wrong
 
@@ -646,6 +646,37 @@ def unsuitable_keys_family(fz: Fz, rng):
                         fz.run("key-kind", name, lambda ep=ep, tf6=tf6: ep(tf6), {**d, "sender": "key set", "form": "flat"})
 
 
+def pbes2_iteration_counts(fz: Fz, rng):
+    """PBES2 tokens whose header asks for every kind of iteration count (genuine tokens made by the reference with that count where it is affordable, the header
+    member replaced otherwise) - on shards where warnings raised from joserfc code are errors as well as on the others"""
+    j = fz.j
+    pw = gen.new_oct(256)
+    for alg, enc in (("PBES2-HS256+A128KW", "A128GCM"), ("PBES2-HS512+A256KW", "A256CBC-HS512")):
+        allow = [alg, enc]
+        for v in P2C_VALUES + [999999, 1000000, 1000002, 1500000, 2000001]:
+            if isinstance(v, int) and not isinstance(v, bool) and v in P2C_SLOW:
+                continue
+            if alg != "PBES2-HS256+A128KW" and isinstance(v, int) and not isinstance(v, bool) and 200000 < v < 2 ** 31 and v != 1000001:
+                continue     # the expensive counts once per algorithm family
+            genuine = isinstance(v, int) and not isinstance(v, bool) and 1 <= v <= 1100000
+            try:
+                base = g.make("compact", enc, [(alg, pw, None)], b'{"a":1}', p2c=v if genuine else 1000)
+            except Exception:
+                continue
+            segs = base.token.split(".")
+            ph = json.loads(b64u_dec(segs[0]))
+            if not genuine:
+                ph["p2c"] = copy.deepcopy(v)
+            tok = ".".join([hdr64(ph)] + segs[1:])
+            jt = {"protected": hdr64({k: x for k, x in ph.items() if k not in ("p2c", "p2s")}), "header": {"p2c": copy.deepcopy(v), "p2s": ph["p2s"]}, "encrypted_key": segs[1], "iv": segs[2],
+                  "ciphertext": segs[3], "tag": segs[4]}
+            desc = {"alg": alg, "member": "p2c", "value": v, "genuine": genuine}
+            for name, ep in jwe_eps(j, j.key(pw), allow):
+                fz.run("pbes2-count", name, lambda ep=ep, tok=tok: ep(tok), desc)
+            for name, ep in jwe_json_eps(j, j.key(pw), allow):
+                fz.run("pbes2-count", name, lambda ep=ep, jt=jt: ep(jt), {**desc, "form": "flat", "where": "recipient"})
+
+
 def run_shard(ctx):
     fz = Fz(ctx)
     rng = ctx.rng
@@ -660,6 +691,8 @@ def run_shard(ctx):
         inner_data_family(fz, rng)
     if sh in (1, 2):
         unsuitable_keys_family(fz, rng) if sh == 1 else None
+    if sh in (3, 4):
+        pbes2_iteration_counts(fz, rng)
     rounds = 0
     while not ctx.out_of_time():
         grammar_jws(fz, rng) if (sh + rounds) % 2 == 0 else grammar_jwe(fz, rng)
